@@ -834,6 +834,53 @@ def _run_o1(spec: dict[str, Any], ctx: Ctx) -> None:
                     "mode": last["mode"], "data_layers": {k: sorted(v)[:4] for k, v in o1.U.layers.items()}})
 
 
+def _selftest(ctx: Ctx) -> None:
+    """The monitors must see harness-made mutations (otherwise the shard crashes and the
+    run is inconclusive): every logged method, and C-level bypasses via the deep diff."""
+    trials: list[tuple[str, Any]] = []
+    for m, a in (("append", (1,)), ("extend", ([1],)), ("insert", (0, 1)), ("remove", (3,)),
+                 ("pop", ()), ("clear", ()), ("sort", ()), ("reverse", ()),
+                 ("__setitem__", (0, 99)), ("__delitem__", (0,)), ("__iadd__", ([1],)),
+                 ("__imul__", (2,))):
+        trials.append(("E_nums", (m, a)))
+    for m, a in (("__setitem__", ("zz", 1)), ("__delitem__", ("title",)), ("pop", ("title",)),
+                 ("popitem", ()), ("clear", ()), ("update", ({"zz": 1},)),
+                 ("setdefault", ("zz", 1)), ("__ior__", ({"zz": 1},))):
+        trials.append(("T_map", (m, a)))
+    for permit in (False, True):
+        for name, (m, a) in trials:
+            u = Universe("selftest", permit)
+            layer = "env" if name[0] == "E" else "tmpl"
+            target = u.layers[layer][name]
+            try:
+                getattr(target, m)(*a)
+                refused = False
+            except MutationRefused:
+                refused = True
+            assert refused != permit, (m, permit)
+            assert [e[:3] for e in u.events] == [(layer, name, m)], (m, u.events)
+            assert bool(u.diff()) == permit, (m, permit, u.diff())
+            ctx.count("monitor_selftest_detections")
+    for fn in (
+        lambda u: list.sort(u.layers["matter"]["M_nums"]),
+        lambda u: list.reverse(u.layers["args"]["R_objs"][0]["t"]),
+        lambda u: dict.__setitem__(u.layers["env"]["E_map"]["inner"], "x", 1),
+        lambda u: dict.__setitem__(u.layers["env"], "new", 1),
+        # same items, different insertion order: == cannot see it, the canon must
+        lambda u: (lambda d: (dict.__setitem__(d, "items", dict.pop(d, "items"))))(u.layers["tmpl"]["T_map"]),
+        # same value, different type: 1 == True == 1.0
+        lambda u: list.__setitem__(u.layers["tmpl"]["T_mixed"], 5, 1),
+    ):
+        u = Universe("selftest", False)
+        assert not u.diff()
+        fn(u)
+        assert u.diff() and not u.events, "deep diff missed a bypassing mutation"
+        ctx.count("monitor_selftest_detections")
+    u = Universe("selftest", False)
+    assert copy.deepcopy(u.layers["env"]) == u.plain["env"] and not u.events
+    assert copy.copy(u.layers["env"]["E_nums"]) == u.plain["env"]["E_nums"] and not u.events
+
+
 # ---------------------------------------------------------------------------------------
 # O2: lookup precedence
 # ---------------------------------------------------------------------------------------
@@ -1210,7 +1257,7 @@ def _run_o2(spec: dict[str, Any], ctx: Ctx) -> None:
 
 
 def shards(tier: str, seed: int) -> list[dict[str, Any]]:  # noqa: ARG001
-    specs: list[dict[str, Any]] = []
+    specs: list[dict[str, Any]] = [{"kind": "selftest", "i": 0, "n": 1}]
     nf = 9 if tier == "quick" else 24
     for i in range(nf):
         specs.append({"kind": "filters", "i": i, "n": nf})
@@ -1241,6 +1288,7 @@ def floors(tier: str) -> dict[str, int]:
         "set:layer_subsets_include": 384,
         "set:layer_subsets_render": 384,
         "site_checks": 100_000,
+        "monitor_selftest_detections": 46,
     }
 
 
@@ -1250,7 +1298,9 @@ def exhaustive(tier: str, merged: dict[str, Any]) -> bool:  # noqa: ARG001
 
 
 def run_shard(spec: dict[str, Any], ctx: Ctx) -> None:
-    if spec["kind"] == "layers":
+    if spec["kind"] == "selftest":
+        _selftest(ctx)
+    elif spec["kind"] == "layers":
         _run_o2(spec, ctx)
     else:
         _run_o1(spec, ctx)
